@@ -308,6 +308,8 @@ fn main() {
                 journal::install(None);
                 pair::install_hook();
                 let mut w = mc::Worker { idx: 0, env: env::ExecEnv::new(slab_bytes) };
+                // freed chunk addresses are handed out again for requests of the same layout, as real allocators do
+                w.env.reuse_exact = true;
                 journal::set_worker(0);
                 env::attach(&mut *w.env as *mut env::ExecEnv);
                 let mval: u8 = a.get("m").map(|s| s.parse().unwrap()).unwrap_or(1);
